@@ -416,6 +416,10 @@ def _tooler(fn, captures):
     with tooling_lock:
         if hasattr(fn, "__ptera_stack__"):
             st = fn.__ptera_stack__
+        elif is_tooled(fn):
+            # Tooled once and for all (@tooled): every variable interacts
+            # already, and must go on doing so for the overlays around
+            return fn
         else:
             st = fn.__ptera_stack__ = SyncedStackedTransforms(
                 fn, proceed=proceed
